@@ -23,6 +23,7 @@ type fnTr struct {
 	p      *lib.Pkg
 	fd     *ast.FuncDecl
 	inst   *types.Basic      // substitution for the single type parameter of a generic function
+	ideal  bool              // exact-integer reading: wraps are omitted
 	recv   types.Object      // receiver variable when the receiver is a struct (fields → parameters)
 	fields map[string]bool   // receiver fields used (transitively through calls on the same receiver)
 	atoms  map[string]string // source text of an opaque sub-expression → Lean parameter name
@@ -110,6 +111,9 @@ func (t *fnTr) wrapName(b *types.Basic, at ast.Node) string {
 }
 
 func (t *fnTr) wrap(b *types.Basic, s string, at ast.Node) string {
+	if t.wrapName(b, at); t.ideal {
+		return s
+	}
 	return "(" + t.wrapName(b, at) + " " + s + ")"
 }
 
@@ -422,20 +426,6 @@ func elseList(x *ast.IfStmt) []ast.Stmt {
 	return []ast.Stmt{x.Else}
 }
 
-func definesVar(ss []ast.Stmt) bool {
-	for _, s := range ss {
-		switch x := s.(type) {
-		case *ast.DeclStmt:
-			return true
-		case *ast.AssignStmt:
-			if x.Tok == token.DEFINE {
-				return true
-			}
-		}
-	}
-	return false
-}
-
 func indent(s string) string { return "  " + strings.ReplaceAll(s, "\n", "\n  ") }
 
 // assignedOuter lists (in order of first assignment) the variables declared before `before` that
@@ -517,22 +507,6 @@ func (t *fnTr) block(ss []ast.Stmt, fall string) string {
 	case *ast.IncDecStmt:
 		op := map[token.Token]string{token.INC: "+", token.DEC: "-"}[x.Tok]
 		return let(x.X, t.wrap(t.typ(x.X), "("+t.expr(x.X)+" "+op+" 1)", x))
-	case *ast.DeclStmt:
-		gd := x.Decl.(*ast.GenDecl)
-		if gd.Tok != token.VAR || len(gd.Specs) != 1 {
-			t.die(x, "declaration outside the subset")
-		}
-		vs := gd.Specs[0].(*ast.ValueSpec)
-		if len(vs.Names) != 1 || len(vs.Values) > 1 {
-			t.die(x, "declaration outside the subset")
-		}
-		if len(vs.Values) == 1 {
-			return let(vs.Names[0], t.expr(vs.Values[0]))
-		}
-		if isBool(t.basic(t.p.Info.Defs[vs.Names[0]].Type())) {
-			return let(vs.Names[0], "false")
-		}
-		return let(vs.Names[0], "0")
 	case *ast.IfStmt:
 		if x.Init != nil {
 			t.die(x, "if with init statement")
@@ -554,12 +528,8 @@ func (t *fnTr) block(ss []ast.Stmt, fall string) string {
 			return ite(t.block(th, ""), t.block(append(append([]ast.Stmt{}, el...), rest...), fall))
 		case terminates(el):
 			return ite(t.block(append(append([]ast.Stmt{}, th...), rest...), fall), t.block(el, ""))
-		default: // both branches may fall through and one of them may return: duplicate the continuation
-			if definesVar(th) || definesVar(el) {
-				t.die(x, "branch that may fall through declares a variable (scoping not modelled)")
-			}
-			return ite(t.block(append(append([]ast.Stmt{}, th...), rest...), fall), t.block(append(append([]ast.Stmt{}, el...), rest...), fall))
 		}
+		t.die(x, "if statement whose branches mix falling through and returning")
 	case *ast.SwitchStmt:
 		return t.block(append([]ast.Stmt{t.desugarSwitch(x)}, rest...), fall)
 	}
@@ -609,8 +579,8 @@ func (t *fnTr) desugarSwitch(x *ast.SwitchStmt) ast.Stmt {
 	if chain == nil {
 		t.die(x, "empty switch")
 	}
-	if b, ok := chain.(*ast.BlockStmt); ok { // only a default clause
-		return &ast.IfStmt{If: x.Pos(), Cond: &ast.Ident{Name: "true"}, Body: b}
+	if _, ok := chain.(*ast.IfStmt); !ok {
+		t.die(x, "switch with only a default clause")
 	}
 	return chain
 }
